@@ -161,6 +161,19 @@ func TestC04(t *testing.T) {
 	r.Require("listener_close_drained", 1)
 }
 
+// waitTimeout waits for wg for at most d of VIRTUAL time (a connection that is never closed keeps
+// yamux's keep-alive timers running for ever: virtual time would advance without end).
+func waitTimeout(wg *sync.WaitGroup, d time.Duration) bool {
+	done := make(chan struct{})
+	go func() { wg.Wait(); close(done) }()
+	select {
+	case <-done:
+		return true
+	case <-time.After(d):
+		return false
+	}
+}
+
 type node struct {
 	key *sectest.Key
 	rm  network.ResourceManager
@@ -204,6 +217,7 @@ type upResult struct {
 	ResidueD, ResidueL []string
 	OpenD, OpenL       map[string]int
 	Bubble             run.BubbleResult
+	Hung               bool // the attempt had not wound down after 15 virtual minutes
 }
 
 // runUpgrade runs one dialer/listener pair through the real upgrader with at most one fault.
@@ -321,7 +335,7 @@ func (s *state) runUpgrade(c *upCase, gd, gl *gater, prep func(d, l *node)) (res
 			}
 			conn.Close()
 		}()
-		wg.Wait()
+		res.Hung = !waitTimeout(&wg, 15*time.Minute)
 		synctest.Wait()
 		res.Reads = [2]int{ra.Reads(), rb.Reads()}
 		res.Writes = [2]int{ra.Writes(), rb.Writes()}
@@ -346,6 +360,10 @@ func (s *state) judgeUpgrade(c *upCase, res *upResult, group string) bool {
 		return false
 	}
 	ok := true
+	if res.Hung {
+		s.r.Violation(group+":attempt-never-wound-down", c.ID, "connection still alive 15 virtual minutes after the attempt ended (never closed)", detail)
+		ok = false
+	}
 	if len(res.ResidueD) > 0 {
 		s.r.Violation(group+":resource-scope-not-released/dialer", c.ID, fmt.Sprintf("dialer's resource manager not back to zero: %v", res.ResidueD), detail)
 		ok = false
